@@ -428,7 +428,7 @@ class CRFactory(object):
         a = t_cr / tg
         assert t_cr > 0, f"Expected t_cr to be > 0 but found {t_cr}"
         assert tg > 0, f"Expected tg to be > 0 but found {tg}"
-        ed_cr = np.sqrt(p_cr/(4*a))
+        ed_cr = np.sqrt(np.maximum(p_cr/(4*a), 0))  # A derived two-qubit error below zero means no residual depolarisation
 
         if T1_ctr == 0:
             e1_ctr = 0
